@@ -52,6 +52,28 @@ impl Prop for C12 {
                 conv.actions[ai] = Action::Result(Program { steps: vec![Step::Set { cols, rows, end: SetEnd::Finish }] });
             }
         }
+        // sometimes one reply of 64 KiB - 4 MiB in total (log-uniform) made of rows of 1-100 KB and
+        // ended, half of the time, by a long error message: the *volume* written since the last flush
+        // and the size of the reply's last packet are what an output queue with a high-water mark
+        // would care about
+        if !g.fuzzing && g.chance(1, 60) {
+            let idx: Vec<usize> = conv.actions.iter().enumerate().filter(|(_, a)| matches!(a, Action::Result(_))).map(|(i, _)| i).collect();
+            if !idx.is_empty() {
+                let ai = *g.pick(&idx);
+                // total = 2^(16 + x), x in [0, 6)
+                let x = g.below(6000) as f64 / 1000.0;
+                let total = (65_536.0 * x.exp2()) as usize;
+                let cell = *g.pick(&[1_000usize, 10_000, 100_000]) + g.usize_in(0, 999);
+                let nrows = (total / (cell + 4)).max(1);
+                let cols = vec![crate::vals::ColSpec::simple("c", T_LONG_BLOB, 0)];
+                let mut rows: Vec<RowProg> =
+                    (0..nrows).map(|r| RowProg { cells: vec![crate::vals::Val::plain(crate::vals::Base::BigBytes { seed: r as u32, len: cell })], form: RowForm::WriteRow, offers: vec![] }).collect();
+                // a last row that brings the volume to a random point, not a multiple of the cell size
+                rows.push(RowProg { cells: vec![crate::vals::Val::plain(crate::vals::Base::BigBytes { seed: 9, len: g.usize_in(0, cell) })], form: RowForm::WriteRow, offers: vec![] });
+                let end = if g.coin() { SetEnd::Finish } else { SetEnd::FinishError { kind: 1105, msg: crate::gen::pattern(g.raw(), *g.pick(&[20usize, 3_000, 9_000, 40_000, 69_000]) + g.usize_in(0, 999)) } };
+                conv.actions[ai] = Action::Result(Program { steps: vec![Step::Set { cols, rows, end }] });
+            }
+        }
         // sometimes pad one query so that a message (or everything up to it) ends exactly where a
         // receive buffer of 4096 * 2^k bytes would be full
         if g.chance(1, 6) {
